@@ -353,7 +353,7 @@ class _bin_sizes:
         sizes = elems(result[0])
         cs = [shape_of(result[0]) == shape]
         for pos, cell in enumerate(itertools.product(*[range(n) for n in shape])):
-            cs.append(sizes[pos] == measure(cls, [bs[ax][k] for ax, k in enumerate(cell)]))
+            cs.append(close(sizes[pos], measure(cls, [bs[ax][k] for ax, k in enumerate(cell)])))
         return And(same_hist(old.self, a.self), *cs)
 
     @ensures("densities_times_sizes_are_frequencies")
@@ -370,4 +370,4 @@ class _bin_sizes:
             return True
         (l0, r0), (l1, r1) = bs[0][0], bs[0][1]
         rest = [b_[0] for b_ in bs[1:]]
-        return Implies(r0 == l1, measure(cls, [(l0, r0)] + rest) + measure(cls, [(l1, r1)] + rest) == measure(cls, [(l0, r1)] + rest))
+        return Implies(r0 == l1, close(measure(cls, [(l0, r0)] + rest) + measure(cls, [(l1, r1)] + rest), measure(cls, [(l0, r1)] + rest)))
